@@ -17,6 +17,8 @@ Line protocol of C18 (all numbers decimal, times in milliseconds of the case's t
             | <t>:rs    (a new IPManager over the same storage takes over)
   rl <Rate> <Burst> <TTL> <U> <ev>…
        ev = <t>:a:<ip> | <t>:c
+  bfd <ev>… | rld <ev>… | hsd <ev>…   the same with the shipped default configuration (components built with a
+       nil config, as the server does); model configuration = the regenerated defaults, in milliseconds
   hs <MaxFailures> <TimeWindow> <BanDuration> <PermanentBanAt> <Rate> <Burst> <TTL> <U> <ev>…
        ev = <t>:h:<ip>:<kind> | <t>:i:<ip-manager ev without time> | <t>:p:<protector ev without time> | <t>:rc
 observation: one token per event: 1 | 0 | - (bf, ip, rl);  blk | ban | rate | ok | fail | chal | - (hs)
@@ -72,11 +74,15 @@ def parseREv (ps : List String) : Option REv :=
 def parseKind : String → Option HKind
   | "anonOk" => some .anonOk | "anonFail" => some .anonFail | "unknown" => some .unknown
   | "noChallenge" => some .noChallenge | "badResp" => some .badResp | "good" => some .good
-  | "phase1" => some .phase1 | _ => none
+  | "phase1" => some .phase1 | "expired" => some .expired | _ => none
 
 def parseHEv (ps : List String) : Option HEv :=
   match ps with
   | ["h", a, k] => match a.toNat?, parseKind k with
+    | some a, some k => some (.hs a k)
+    | _, _ => none
+  -- 4th field: how the harness presents the attempt (address form, token spelling); same model event
+  | ["h", a, k, _variant] => match a.toNat?, parseKind k with
     | some a, some k => some (.hs a k)
     | _, _ => none
   | "i" :: rest => (parseIEv rest).map .ipm
@@ -114,8 +120,20 @@ inductive Case
   | hs (cfg : HCfg) (es : List (Nat × HEv))
   | race (cfg : BruteForceConfig)
 
+/-- the shipped defaults (`NewBruteForceProtector(nil, …)`, `NewRateLimiter(nil, nil, …)` — what the
+server wires), nanoseconds → milliseconds -/
+def defaultBF : BruteForceConfig :=
+  ⟨Gen.security.DefaultBruteForceConfig.MaxFailures, Gen.security.DefaultBruteForceConfig.TimeWindow / 1000000,
+   Gen.security.DefaultBruteForceConfig.BanDuration / 1000000, Gen.security.DefaultBruteForceConfig.PermanentBanAt⟩
+def defaultRL : RateLimitConfig :=
+  ⟨Gen.security.DefaultIPRateLimitConfig.Rate, Gen.security.DefaultIPRateLimitConfig.Burst,
+   Gen.security.DefaultIPRateLimitConfig.TTL / 1000000⟩
+
 def parseCase (ts : List String) : Option Case :=
   match ts with
+  | "bfd" :: evs => (evs.mapM (parseTimed parseEv)).map (.bf defaultBF)
+  | "rld" :: evs => (evs.mapM (parseTimed parseREv)).map (.rl defaultRL 1000)
+  | "hsd" :: evs => (evs.mapM (parseTimed parseHEv)).map (.hs ⟨defaultBF, defaultRL, 1000⟩)
   | "bf" :: m :: w :: b :: p :: evs =>
     match natList [m, w, b, p], evs.mapM (parseTimed parseEv) with
     | some [m, w, b, p], some es => some (.bf ⟨m, w, b, p⟩ es)
